@@ -766,6 +766,14 @@ static int janet_chan_pack(JanetChannel *chan, Janet *x) {
             }
             janet_restore(&tstate);
             if (signal != JANET_SIGNAL_OK) {
+                /* Shared abstracts that were already written into the message hold a reference each.
+                 * Nobody will ever read this message, so read back what there is of it ourselves, just
+                 * to drop those references (the read ends in an error where the writing stopped). */
+                signal = janet_try(&tstate);
+                if (signal == JANET_SIGNAL_OK) {
+                    janet_unmarshal(buf->data, buf->count, JANET_MARSHAL_UNSAFE | JANET_MARSHAL_DECREF, NULL, NULL);
+                }
+                janet_restore(&tstate);
                 janet_buffer_deinit(buf);
                 janet_free(buf);
                 return 1;
